@@ -72,4 +72,26 @@ MUTATIONS = [
     {'id': 'c03-xpm-weight', 'props': ['C03'], 'tests': 'tests/test_info.py',
      'desc': 'XPM weight 16/27 instead of 32/27',
      'edits': [('gnpy/core/science_utils.py', "    XPM_WEIGHT = 2 * (16.0 / 27.0)", "    XPM_WEIGHT = (16.0 / 27.0)")]},
+    {'id': 'c04-clamp-per-channel', 'props': ['C04'], 'tests': 'tests/test_amplifier.py',
+     'desc': 'saturation clamp uses the strongest channel instead of the total input power',
+     'edits': [('gnpy/core/elements.py', "            self.params.p_max - self.pin_db\n",
+                "            self.params.p_max - watt2dbm(max(pch_in))\n")]},
+    {'id': 'c04-ase-slot-width', 'props': ['C04'], 'tests': 'tests/test_amplifier.py',
+     'desc': 'ASE integrated over the slot width instead of the baud rate',
+     'edits': [('gnpy/core/elements.py', "ase = h * spectral_info.baud_rate * spectral_info.frequency * db2lin(self.nf)",
+                "ase = h * spectral_info.slot_width * spectral_info.frequency * db2lin(self.nf)")]},
+    {'id': 'c04-no-pad-below-gain-min', 'props': ['C04'], 'tests': 'tests/test_amplifier.py',
+     'desc': 'NF no longer grows dB-for-dB below minimum gain',
+     'edits': [('gnpy/core/elements.py', "        return nf_avg + pad, pad", "        return nf_avg, pad")]},
+    {'id': 'c04-dual-stage-friis', 'props': ['C04'], 'tests': 'tests/test_amplifier.py',
+     'desc': 'dual stage: second stage NF not divided by the first stage gain when g1 > 24 dB',
+     'edits': [('gnpy/core/elements.py', "            nf_avg = lin2db(db2lin(nf1_avg) + db2lin(nf2_avg - g1))",
+                "            nf_avg = lin2db(db2lin(nf1_avg) + db2lin(nf2_avg - min(g1, 24)))")]},
+    {'id': 'c04-band-upper-edge', 'props': ['C04'], 'tests': 'tests/test_info.py tests/test_amplifier.py',
+     'desc': 'band filter excludes a channel ending exactly on the upper band edge',
+     'edits': [('gnpy/core/info.py', "(frequency + slot_width / 2 <= band['f_max'])", "(frequency + slot_width / 2 < band['f_max'])")]},
+    {'id': 'c04-tilt-normalisation', 'props': ['C04'], 'tests': 'tests/test_amplifier.py',
+     'desc': 'gain profile not re-normalised to the effective gain under tilt (first estimate returned)',
+     'edits': [('gnpy/core/elements.py', "        return g1st - voa + array(self.interpol_dgt) * dgts3",
+                "        return g1st - voa + array(self.interpol_dgt) * dgts1")]},
 ]
